@@ -72,6 +72,8 @@ CORPUS = [
     # elemwise below gives MORE blocks and the single PartialReduce(split_every=2) silently drops the rest
     ("F33d", ("reduce", "argmin", ("slice", ("elem", "maximum", ("src", 0), ("src", 1)), (S(1, None, None),)), None, False, 2),
      [(np.array([3, 1, 4, 1, 5, 9, 2], dtype="int64"), ((1, 6),)), (np.array([-2, 7, -1, 8, -2, -8, 10], dtype="int64"), ((2, 1, 4),))]),
+    # F35: pad wider than the axis (wrap / symmetric) is cut short
+    ("F35", ("call", "pad", (2, "wrap"), (("src", 0),)), [(np.array([[5]], dtype="int64"), ((1,), (1,)))]),
     # F21: diff over repeat over a concatenate raises NotImplementedError
     ("F21", ("diff", ("repeat", ("concat", (("reduce", "all", ("src", 0), (0,), True, None), ("src", 1)), 0), 2, 0), 0),
      [(np.array([-1, 6, 13], dtype="int64"), ((1, 2),)), (np.array([True, True]), ((1, 1),))]),
@@ -155,6 +157,8 @@ def run_one(chk, da, prog, sources, want, tag=None):
         sig["has_broadcast_to"] = any(q[0] == "broadcast_to" for q in progs.all_nodes(small))
         sig["zero_length_result"] = bool(np.size(sw) == 0)
         sig["swv_reduction_below_root"] = any(q[0] == "swv" and q[4] is not None for q in progs.all_nodes(small)[1:])
+        if small[0] == "call":
+            sig["call"] = progs.call_tag(small, sources)
         sig["unoptimized_ok"] = bool(unopt)
         sig["arg_reduction_split_every"] = small[0] == "reduce" and "arg" in small[1] and small[5] is not None
         sig["unstable_chunks_below_root"] = unstable_chunks_below(da, small, sources)
@@ -194,4 +198,11 @@ def run(chk: Check):
             run_one(chk, da, prog, sources, want)
     n = 12000 if chk.tier == "thorough" else 1500
     for prog, sources, want in progs.gen_programs(chk.rng, n):
+        run_one(chk, da, prog, sources, want)
+    # the wider API surface (harness/apicalls.py: outer/tensordot/einsum, reshape_blockwise, TSQR, quantiles, pad, topk,
+    # histogram, insert/delete, block, coarsen, apply_along_axis, periodic map_overlap + slice, ...), round-robin over the table
+    import random as _random
+    api_rng = _random.Random(f"{chk.pid}-api-family-{chk.seed}")      # own stream: the families above keep theirs
+    for prog, sources, want in progs.gen_api_programs(api_rng, 6000 if chk.tier == "thorough" else 600):
+        chk.count("api-call:" + next(q[1] for q in progs.all_nodes(prog) if q[0] == "call"))
         run_one(chk, da, prog, sources, want)
